@@ -137,10 +137,7 @@ impl Compiler {
             let idx = if let Some(&idx) = self.global_indices.get(name) {
                 idx
             } else {
-                let idx = self.next_global_index;
-                self.global_indices.insert(name.to_string(), idx);
-                self.next_global_index += 1;
-                idx
+                self.alloc_global_index(name)?
             };
             self.accessed_globals.insert(name.to_string());
             self.emit_b(OpCode::SetGlobalIdx, dest, idx as i16, span);
